@@ -16,6 +16,8 @@ from sqlalchemy.util import ReadOnlyProperties
 from typing_extensions import (
     Type,
     get_args,
+    get_origin,
+    get_type_hints,
     Dict,
     Any,
     TypeVar,
@@ -259,6 +261,8 @@ class FromDAOState:
                 fixed_list = []
                 for v in value:
                     fixed_list.append(self.memo.get(id(v)))
+                if isinstance(getattr(result, key, None), (set, frozenset)):
+                    fixed_list = set(fixed_list)
                 setattr(result, key, fixed_list)
             else:
                 setattr(result, key, self.memo.get(id(value)))
@@ -758,10 +762,25 @@ class DataAccessObject(HasGeneric[T]):
                 parsed_list, circular_list = state.parse_collection(value)
                 if circular_list:
                     circular_refs[relationship.key] = circular_list
+                if self._is_declared_as_set(relationship.key):
+                    parsed_list = set(parsed_list)
                 rel_kwargs[relationship.key] = parsed_list
             else:
                 raise UnsupportedRelationshipError(relationship)
         return rel_kwargs, circular_refs
+
+    @classmethod
+    @lru_cache(maxsize=None)
+    def _is_declared_as_set(cls, field_name: str) -> bool:
+        """
+        :return: Whether the original class declares the given field as a set. Relationship collections are lists in
+         the DAO, the original object gets the kind of collection it declares.
+        """
+        try:
+            declared_type = get_type_hints(cls.original_class())[field_name]
+        except Exception:
+            return False
+        return get_origin(declared_type) in (set, frozenset)
 
     def _build_base_kwargs_for_alternative_parent(
         self,
